@@ -346,6 +346,13 @@ MovesErr(h, kn) ==
         \o MapS(a, LAMBDA c : MFilter(i, <<Fn2("gt", Agg("sum", Col(c)), LitI(1))>>))
         \o MapS(a, LAMBDA c : MSummarize(i, <<KV("s", Col(c))>>))                                \* not aggregated
         \o MapS(a, LAMBDA c : MSummarize(i, <<KV("s", Fn2("add", Agg("sum", Col(c)), Col(c)))>>))
+        \* the same below a case expression / a cast (check_summarize_col_expr must look through every node kind)
+        \o MapS(a, LAMBDA c : MSummarize(i, <<KV("s", Case1D(Fn2("gt", Col(c), LitI(1)), Col(c), LitI(0)))>>))
+        \o MapS(a, LAMBDA c : MSummarize(i, <<KV("s", Fn2("add", Agg("sum", Col(c)), Case1D(Fn2("gt", Col(c), LitI(1)), LitI(1), LitI(0))))>>))
+        \o MapS(a, LAMBDA c : MSummarize(i, <<KV("s", Cast(Col(c), "float"))>>))
+        \o MapS(a, LAMBDA c : MSummarize(i, <<KV("s", Fn2("add", Agg("max", Col(c)), Cast(Col(c), "float")))>>))
+        \o MapS(a, LAMBDA c : MSummarize(i, <<KV("s", Case1D(Fn2("gt", Agg("max", Col(c)), LitI(1)), Win("row_number", <<>>, <<Ord(Col(c), FALSE, "first")>>), LitI(0)))>>))
+        \o MapS(a, LAMBDA c : MSummarize(i, <<KV("s", Case1D(Fn2("gt", Agg("max", Col(c)), LitI(1)), Agg("min", Col(c)), LitI(0)))>>))   \* fine
         \o MapS(a, LAMBDA c : MSummarize(i, <<KV("s", Win("row_number", <<>>, <<Ord(Col(c), FALSE, "first")>>))>>))
         \o MapS(Take(be, 6), LAMBDA e : MSummarize(i, <<KV("s", Agg("max", e))>>))
         \o <<MSummarize(i, <<>>)>>
